@@ -47,7 +47,7 @@ UNITS = {
         ],
     },
     'v_lattice': {
-        'tpl': 'units/v_lattice.rs.tpl', 'rlimit': 60,
+        'tpl': 'units/v_lattice.rs.tpl', 'rlimit': 60, 'full': ['connect_node__full'], 'no_canary': ['connect_node__full'],
         'mutants': [
             {'name': 'maximise instead of minimise', 'file': 'sudachi/src/analysis/lattice.rs',
              'find': 'if new_cost < min_cost {', 'replace': 'if new_cost > min_cost || min_cost == i32::MAX {'},
@@ -184,6 +184,13 @@ for _i in range(1, 21):
     NOT_APPLICABLE.setdefault('C%02d' % _i, 'not yet under contract in this revision of /verif (see DESIGN.md build order)')
 
 PROPS = {
+    'C03': {
+        'level_text': 'totality is decided function by function: every index, slice, unwrap, integer cast/overflow and converted debug assertion inside the real functions under contract on the analysis path (resolve_edits/add_replace, start_build/commit, Lattice::*, ConnectionMatrix::index/cost, concat_nodes/concat_oov_nodes, NodeSplitIterator::next, split_path, both path-rewrite plugins, fill_cat_continuity) is a discharged Verus obligation under the stated preconditions; the input limits are postconditions (start_build: error iff more than 49,149 bytes; commit: error only if a prefix of the edit batch exceeds 65,535 bytes; no truncation); CreatedWords is proved over its full domain by Kani',
+        'level_note': 'known finding F10 (i32 path-cost overflow at cost extremes) is reported, not proved away; assumed: valid binary dictionary (trie array, id tables, word parameters inside the matrix), plugins built on regex engines, the preconditions that chain the units (edits_ok, path_ok, left-to-right insertion) are established by code not yet under contract (LatticeBuilder, plugin glue); Morpheme accessors and the trie/word-id-table readers are not yet under contract',
+        'verus': ['v_edit', 'v_buf0', 'v_conn', 'v_lattice', 'v_wordid', 'v_node', 'v_katakana', 'v_numeric', 'v_cont'],
+        'kani': ['k_created'],
+        'assumptions': ['valid binary dictionary', 'edits_ok / path_ok / left-to-right insertion hold at the call sites', 'strict_no_overflow (finding F10)'],
+    },
     'C13': {
         'level_text': 'Verus proves on the real InputBuffer::fill_cat_continuity, for every sequence of class sets, that the stored continuity of every position is the distance to the end of its class run, where runs are cut left to right from the start of the text and a run is the maximal stretch whose characters keep a class in common (cont_ok / is_run / is_start), and that it never points past the text',
         'level_note': 'so far only the class-run clause; the word-begin state machine (can_bow), MeCab/simple/regex OOV providers and CreatedWords are being brought under contract separately; character classes themselves are C17',
